@@ -202,6 +202,21 @@ def work(ctx, tier):
             ex = rng.random() < 0.5
             ents = [e for e in ents if e.endswith("execute") == ex]
             ctx.inc("scenarios_with_raising_attempt_hook_same_delivery")
+            if k % 10 == 2:
+                # the end hook fails on the attempt that ends the run - an ordinary failure is retried, then the operation aborts (or
+                # succeeds, or fails for good): whether that last attempt is reported to the hook at all must not depend on the twin
+                for c in sc["calls"]:
+                    n_ = len(c["outcomes"])
+                    c["outcomes"] = [["exc", rng.choice(gen.RETRYABLE[:4]), None]] + [rng.choice([["sp", "abort"], ["sp", "abort"], ["ok"], ["exc", "PERMANENT", None]])] + c["outcomes"][2:]
+                    c["outcomes"] = c["outcomes"][:max(n_, 2)]
+                    c["abort_at"] = None
+                    if c.get("handler"):
+                        c["handler"] = ["sleep"] * len(c["handler"])
+                sc["cfg"]["max_attempts"] = max(sc["cfg"]["max_attempts"], 2)
+                sc["cfg"]["per_class"] = {}
+                sc["cfg"]["budget"] = None
+                sc["fault"] = {"kind": "cb", "cb": "aend", "at": 1, "exc": rng.choice(gen.CB_EXCS)}
+                ctx.inc("scenarios_with_the_end_hook_failing_on_the_last_attempt")
         elif k % 5 == 3 and k % 2:
             # the same, across deliveries: call() against execute() (the clean tree differs here by KF6, and only by KF6)
             sc["place"]["hooks"] = rng.choice(["call", "policy", "both"])
